@@ -416,6 +416,28 @@ def path_confined(ctx: Ctx, v: LocalView, rule: str) -> int:
                         flawed.append(f"{g.loc(a)}: `{unparse(a, 70)}`: prefix test without a trailing separator accepts sibling directories")
             for j in joins:
                 w = dominated(ctx, g, j, rejects) if rejects else ["no rejection / containment test precedes the join"]
+                if w is not None and not flawed:
+                    # the test may be held in a local (`mappable = bool(segments) and not any(s in ('.', '..') ...)`, `if mappable: <join>`):
+                    # for one of its two outcomes a raise can be reached and the join cannot
+                    from ..propdom import feasible_path as _fp
+
+                    def _dots(a_: ast.AST, g_=g) -> Optional[str]:
+                        if isinstance(a_, (ast.Compare, ast.Call)):
+                            cs_ = _str_consts(g_, a_)
+                            if ".." in cs_ and "." in cs_:
+                                return "<dot-segment>"
+                            t_ = ast.unparse(a_)
+                            if isinstance(a_, ast.Call) and ("commonpath" in t_ or "relative_to" in t_):
+                                return "<contained>"
+                        return None
+                    raises_ = [nd for r_ in g.own_nodes() if isinstance(r_, ast.Raise) for nd in cfg.nodes_of(r_)]
+                    jn = cfg.nodes_of(j)
+                    for nm_ in ("<dot-segment>", "<contained>"):
+                        if not any(_dots(y) == nm_ for y in g.own_nodes()):
+                            continue
+                        for b_ in (True, False):
+                            if jn and raises_ and _fp(prog, g, cfg, jn, {nm_: b_}, _dots) is None and _fp(prog, g, cfg, raises_, {nm_: b_}, _dots) is not None:
+                                w = None
                 if w is None:
                     if verdict == "none":
                         verdict = "ok"
@@ -745,6 +767,9 @@ def every_path_answered(ctx: Ctx, rule: str) -> int:
         if f is None:
             continue
         rets = {r.value.id for r in f.own_nodes() if isinstance(r, ast.Return) and isinstance(r.value, ast.Name)}
+        # (or a copy of it: `return OrderedDict(resolved)`)
+        rets |= {r.value.args[0].id for r in f.own_nodes() if isinstance(r, ast.Return) and isinstance(r.value, ast.Call) and len(r.value.args) == 1 and not r.value.keywords
+                 and isinstance(r.value.args[0], ast.Name) and unparse(r.value.func).split(".")[-1] in ("OrderedDict", "dict", "copy", "deepcopy")}
         loops = [x for x in f.own_nodes() if isinstance(x, ast.For)]
         for st in f.own_nodes():
             if not (isinstance(st, ast.Assign) and len(st.targets) == 1 and isinstance(st.targets[0], ast.Subscript) and isinstance(st.targets[0].value, ast.Name)
@@ -1114,6 +1139,8 @@ def link_current_test(ctx: Ctx, v: LocalView, rule: str) -> int:
             n += 1
             desc = f"`{unparse(test, 70)}` leaves an existing entry alone only if its whole target is {show(target)}"
             conj: List[ast.AST] = []
+            equalities: List[ast.AST] = []
+            seen_names: List[str] = []
 
             def split(t: ast.AST, pos: bool) -> bool:
                 """conjuncts that hold on the skipping outcome; False when the shape is not a conjunction there"""
@@ -1123,6 +1150,17 @@ def link_current_test(ctx: Ctx, v: LocalView, rule: str) -> int:
                     if (isinstance(t.op, ast.And) and pos) or (isinstance(t.op, ast.Or) and not pos):
                         return all(split(x, pos) for x in t.values)
                     return False
+                if isinstance(t, ast.Name) and len(seen_names) < 4:
+                    # a boolean local (`stale = not os.path.exists(loc) or os.path.realpath(loc) != loc_blob`) stands for its definition
+                    try:
+                        ds_ = flow_of(ctx.prog, e.func or v.func("sync_paths")).defs_of_use(t)
+                    except Exception:
+                        ds_ = []
+                    if len(ds_) == 1 and getattr(ds_[0], "kind", "assign") == "assign" and isinstance(ds_[0].value, (ast.BoolOp, ast.UnaryOp, ast.Compare)):
+                        seen_names.append(t.id)
+                        return split(ds_[0].value, pos)
+                if isinstance(t, ast.Compare) and len(t.ops) == 1 and ((isinstance(t.ops[0], ast.Eq) and pos) or (isinstance(t.ops[0], ast.NotEq) and not pos)):
+                    equalities.append(t)
                 conj.append(t if pos else ast.UnaryOp(op=ast.Not(), operand=t))
                 return True
 
@@ -1145,6 +1183,8 @@ def link_current_test(ctx: Ctx, v: LocalView, rule: str) -> int:
                 at = m.expr_terms.get(id(a))
                 if isinstance(a, ast.Compare) and len(a.ops) == 1 and isinstance(a.ops[0], ast.Eq) and whole_cmp(at):
                     ok = True
+                elif isinstance(a, ast.UnaryOp) and any(a.operand is q for q in equalities) and whole_cmp(m.expr_terms.get(id(a.operand))):
+                    ok = True  # `not (<whole target> != <blob location>)`
                 elif isinstance(a, ast.Call) and contains(at, whole_cmp):
                     ok = True  # a package helper whose (inlined) result holds the comparison
             if ok:
